@@ -875,6 +875,149 @@ func scnBWSweepUDP(t *testing.T, order string) {
 	synctest.Wait()
 }
 
+// ---------------------------------------------------------------- request bodies that fail
+
+// faultyBody: an application's body reader that fails: on Read after `readOK` bytes were delivered (readOK < 0: never), on
+// the `seekFail`-th call of Seek (seekFail < 0: never).
+type faultyBody struct {
+	r        *bytes.Reader
+	readOK   int
+	seekFail int
+	given    int
+	seeks    int
+}
+
+var errFaultyBody = errors.New("body cannot be read")
+
+func (b *faultyBody) Read(p []byte) (int, error) {
+	if b.readOK >= 0 {
+		left := b.readOK - b.given
+		if left <= 0 {
+			return 0, errFaultyBody
+		}
+		if len(p) > left {
+			p = p[:left]
+		}
+	}
+	n, err := b.r.Read(p)
+	b.given += n
+	return n, err
+}
+
+func (b *faultyBody) Seek(off int64, whence int) (int64, error) {
+	b.seeks++
+	if b.seekFail >= 0 && b.seeks-1 == b.seekFail {
+		return 0, errFaultyBody
+	}
+	if whence == io.SeekStart && b.readOK >= 0 {
+		// a fresh pass over the body may again deliver its first bytes
+		b.given = int(off)
+	}
+	return b.r.Seek(off, whence)
+}
+
+// badbody: requests whose body fails while the library copies it (the copy kept for the retransmissions of a confirmable
+// message, the block cut out for a block-wise transfer, the datagram itself), between ordinary requests that recycle the
+// pool's messages.  fault = read<k> | seek<k>; typ = con | non; api = post | do | write; size of the body in bytes.
+func scnBadBodyUDP(t *testing.T, bw bool, fault, typ, api string, size int) {
+	w := newUDP(bw)
+	w.handler = func(rw *responsewriter.ResponseWriter[*udpclient.Conn], r *pool.Message) {
+		end := hold(r)
+		end()
+	}
+	var mu sync.Mutex
+	answered := map[int32]bool{}
+	w.onSent = func(m *pool.Message) {
+		if m.Code() < codes.GET || m.Code() > codes.DELETE {
+			return
+		}
+		mu.Lock()
+		dup := answered[m.MessageID()]
+		answered[m.MessageID()] = true
+		mu.Unlock()
+		if dup {
+			return
+		}
+		typR, mid := message.Acknowledgement, m.MessageID()
+		if m.Type() != message.Confirmable {
+			typR, mid = message.NonConfirmable, w.nextMID()
+		}
+		code := codes.Changed
+		r := reply(m, typR, code, mid, "ok", -1)
+		if bv, err := m.GetOptionUint32(message.Block1); err == nil {
+			if _, _, more, err := blockwise.DecodeBlockOption(bv); err == nil && more {
+				r = reply(m, typR, codes.Continue, mid, "", -1)
+			}
+			r.SetOptionUint32(message.Block1, bv)
+		}
+		w.inject(r)
+	}
+	k, _ := strconv.Atoi(strings.TrimLeft(fault, "readsek"))
+	mkBody := func(faulty bool) io.ReadSeeker {
+		data := bytes.Repeat([]byte{0x42}, size)
+		if !faulty {
+			return bytes.NewReader(data)
+		}
+		fb := &faultyBody{r: bytes.NewReader(data), readOK: -1, seekFail: -1}
+		if strings.HasPrefix(fault, "read") {
+			fb.readOK = k
+		} else {
+			fb.seekFail = k
+		}
+		return fb
+	}
+	one := func(i int, faulty bool) {
+		ctx, cancel := context.WithTimeout(context.Background(), 5*time.Second)
+		defer cancel()
+		give := func(resp *pool.Message, err error) {
+			if err == nil && resp != nil {
+				end := hold(resp)
+				end()
+				w.cc.ReleaseMessage(resp)
+			}
+		}
+		if api == "post" && typ == "con" {
+			give(w.cc.Post(ctx, "/b", message.AppOctets, mkBody(faulty)))
+			return
+		}
+		req := w.cc.AcquireMessage(ctx)
+		req.SetCode(codes.POST)
+		tok, _ := message.GetToken()
+		req.SetToken(tok)
+		_ = req.SetPath("/b")
+		if typ == "non" {
+			req.SetType(message.NonConfirmable)
+		} else {
+			req.SetType(message.Confirmable)
+		}
+		req.SetContentFormat(message.AppOctets)
+		req.SetBody(mkBody(faulty))
+		if api == "write" {
+			_ = w.cc.WriteMessage(req)
+		} else {
+			give(w.cc.Do(req))
+		}
+		w.cc.ReleaseMessage(req)
+	}
+	for i := 0; i < 5; i++ {
+		one(i, i == 1 || i == 3)
+		synctest.Wait()
+		// traffic from the peer in between takes messages out of the pool as well
+		m := pool.NewMessage(context.Background())
+		m.SetCode(codes.GET)
+		m.SetToken(message.Token{0xBB, byte(i)})
+		m.SetType(message.NonConfirmable)
+		m.SetMessageID(w.nextMID())
+		w.inject(m)
+		synctest.Wait()
+	}
+	time.Sleep(6 * time.Second)
+	w.cc.CheckExpirations(time.Now())
+	synctest.Wait()
+	_ = w.cc.Close()
+	synctest.Wait()
+}
+
 // ---------------------------------------------------------------- tcp
 
 func scnTCP(t *testing.T, name string, arg string) {
@@ -1063,6 +1206,12 @@ func runScenario(t *testing.T, f []string) (trace []string) {
 		case "udp:observe":
 			n, _ := strconv.Atoi(arg)
 			scnObserveUDP(t, n)
+		case "udp:badbody", "udp:badbodybw":
+			// scn udp badbody[bw] <fault> <con|non> <post|do|write> <size>
+			if len(f) >= 7 {
+				size, _ := strconv.Atoi(f[6])
+				scnBadBodyUDP(t, f[2] == "badbodybw", f[3], f[4], f[5], size)
+			}
 		case "udp:obscancel":
 			n, _ := strconv.Atoi(arg)
 			scnObsCancelUDP(t, n)
